@@ -47,10 +47,16 @@ theorem insertMany_txn (rs : List Row) : ∀ (s : TState) (t : Txn), s.txn = som
   | nil => intro s t ht; exact ⟨t, ht, rfl, rfl, rfl⟩
   | cons r rs ih =>
     intro s t ht
-    have h1 : (insert1 s r).txn = some { t with log := t.log ++ [r] } := by
-      simp [insert1, logIns, ht]
+    have h1 : (insert1 s r).txn = some { t with log := t.log ++ [.ins r] } := by
+      simp [insert1, logIns, logAdd, ht]
     obtain ⟨t', h2, h3, h4, h5⟩ := ih _ _ h1
     exact ⟨t', h2, h3, h4, h5⟩
+
+theorem logAdd_snap (o : Option Txn) (t : Txn) (cs : List Change) (h : o = some t) :
+    ∃ t', logAdd o cs = some t' ∧ t'.snapRows = t.snapRows ∧ t'.snapH = t.snapH ∧
+      t'.snapU = t.snapU := by
+  subst h
+  exact ⟨{ t with log := t.log ++ cs }, rfl, rfl, rfl, rfl⟩
 
 /-- no statement inside a transaction touches the snapshot taken at BEGIN -/
 theorem step_keeps_snapshot (s : TState) (op : Op) (t : Txn) (hop : InTxnOp op)
@@ -63,16 +69,16 @@ theorem step_keeps_snapshot (s : TState) (op : Op) (t : Txn) (hop : InTxnOp op)
     simp only [step]
     split
     · exact ⟨t, ht, rfl, rfl, rfl⟩
-    · exact ⟨t, ht, rfl, rfl, rfl⟩
+    · exact logAdd_snap _ t _ ht
   | upsert i new =>
     simp only [step]
     split
     · exact ⟨t, ht, rfl, rfl, rfl⟩
-    · exact ⟨t, ht, rfl, rfl, rfl⟩
-  | delete ps => exact ⟨t, ht, rfl, rfl, rfl⟩
-  | truncate => exact ⟨t, ht, rfl, rfl, rfl⟩
+    · exact logAdd_snap _ t _ ht
+  | delete ps => exact logAdd_snap _ t _ ht
+  | truncate => exact logAdd_snap _ t _ ht
   | replace r =>
-    simp only [step, insert1, logIns, ht, Option.map_some]
+    simp only [step, insert1, logIns, logAdd, ht, Option.map_some]
     exact ⟨_, rfl, rfl, rfl, rfl⟩
   | createIndex name cols unique =>
     simp only [step]
